@@ -17,14 +17,17 @@ RULE = ("random mapped functions (stateless, stateful acc/count, key-consuming, 
         "is simulated alone by the reference model on that key's element stream from the epoch start with fresh state; oracle: "
         "per-instance user-code runs and values == the standalone model, map output per key == the standalone output stream, "
         "output keys == keys whose child output is valid, removed == keys that left, one child start and stop per epoch. "
-        "Non-trivial: >= 3 epochs of which one is a re-add; distinct by case text")
+        "Non-trivial: >= 3 epochs of which one is a re-add; distinct by case text. Failure isolation: keyed maps with per-key "
+        "error capture are run with and without a fault plan on a node of the mapped function; instances and output streams of "
+        "keys that never failed == the fault-free twin")
 ASSUMPTIONS = ["an instance's key is recovered from the element values it reads (values encode their key) or from its key input",
                "vp/model.py standalone simulation defines 'the mapped function run alone'; boundary inputs already valid at "
                "instance start are sampled (read as ticked) at that cycle, per the documented sampled-start rule",
                "g++-12 -O1 build of the working tree with harness-side shims"]
 FLOORS = {"epochs_checked": {"quick": 1200, "thorough": 20000}, "readd_epochs": {"quick": 150, "thorough": 2500},
           "instance_runs_compared": {"quick": 8000, "thorough": 120000}, "output_ticks_compared": {"quick": 2000, "thorough": 35000},
-          "timer_runs_in_instances": {"quick": 300, "thorough": 5000}}
+          "timer_runs_in_instances": {"quick": 300, "thorough": 5000}, "map_key_throws": {"quick": 50, "thorough": 800},
+          "map_other_key_runs_compared": {"quick": 700, "thorough": 10000}}
 BATCH = 15
 
 
@@ -103,7 +106,17 @@ def gen_case10(rng, name, idx):
 
 def generate(rng, tier, seed):
     n = 200 if tier == "quick" else 3000
-    return [gen_case10(rng, f"c10_{seed}_{k}", k) for k in range(n)]
+    cases = [gen_case10(rng, f"c10_{seed}_{k}", k) for k in range(n)]
+    # failure isolation between keys: the keyed-map fault pairs of C15 (fault-free twin + per-key captured faults)
+    from .c15 import gen_map_pair
+    k = got = 0
+    while got < (40 if tier == "quick" else 600):
+        pr = gen_map_pair(rng, f"c10f_{seed}_{k}")
+        k += 1
+        if pr:
+            cases += list(pr)
+            got += 1
+    return cases
 
 
 def epochs_from_writes(wl, end):
@@ -171,6 +184,9 @@ def check(case, tr):
     if tr.build_error:
         res.violations.append(Violation(f"valid program rejected at build: {tr.build_error}"))
         return res
+    if case.meta.get("how") == "map":
+        from .c15 import check_map
+        return check_map(case, tr)
     run = tr.runs[0]
     if run.error:
         res.violations.append(Violation(f"run failed: {run.error[:300]}"))
